@@ -11,8 +11,15 @@ request: walk <cfg> <paths> <skip> <regex> <glob> <req> <ext> <nroots> { <tree> 
          matcher for that directory is this table (the theorems only need the domain law, which the table matcher has by construction)
   faults of=<paths,>|sf=<paths,>|ff=<paths,>|rf=<path#k,>
 reply : err= vis= calls=<e@path@size;…> pkgs=<id@e@path;…> st=<e=status,…> hyp=<0|1> spec=<calls owed, walk order>
-        … limithyp=<0|1> specvisits=<visitsScan: handleFile calls of the scan run to the end> (theorem C10_inodes_exact)
-        … cancelhyp=<0|1> cspecerr= cspecvis= cspeccalls= (cancelOutcome on the specification's trace; theorem C10_cancel_outcome)
+        … limithyp=<0|1> specvisits=<visitsScan: handleFile calls of the scan run to the end> (theorem C10_inodes_exact_limitcfg)
+        … cancelhyp=<0|1> cspecerr= cspecvis= cspeccalls= (cancelOutcome on the specification's trace; theorem C10_cancel_outcome_cancelcfg)
+        … fnd=<e@path;…> findings of the filesystem extractors in emitted (sorted by advisory reference) order, "-" for a failed scan;
+          specfnd= the same from the specification (findsOfCalls ∘ mustExtract; theorem run_finds_spec)
+        … contained=<calls> the attempts per C09_contained_run_any_benign (fault-free rule minus files behind a fault), to be compared under hyp=1
+        … nopanic=<0|1> mspecerr= mspecvis= mspeccalls= : the sequential machine (Spec/WalkMachine.lean) on the trace of the configuration
+          with ErrorOnFSErrors cleared; theorem C10_machine_any: without a panicking extractor the scan ends with the fs error or is this
+        … distinct=<0|1> every directory of every root lists distinct names (DistinctNames); subdirhyp=<0|1> one root, paths=[d], benign,
+          and the hypotheses of C01_subdir_partial hold for d (theorem mustRequested_subdir_of_hyp)
 -/
 import Scalibr.Base.Wire
 import Scalibr.Model.Gitignore
@@ -20,6 +27,9 @@ import Scalibr.Model.Scan
 import Scalibr.Spec.Walk
 import Scalibr.Spec.WalkCount
 import Scalibr.Proofs.WalkTop
+import Scalibr.Proofs.WalkAny
+import Scalibr.Proofs.WalkSubdirHyp
+import Scalibr.Proofs.WalkContainAny
 open Scalibr Scalibr.Walk Scalibr.Wire
 
 def parsePath (s : String) : Option Path :=
@@ -122,7 +132,7 @@ def parseExt (s : String) : Option ((Nat × Path) × ExtractOut) :=
     | some ep, [flags, ids] =>
       match flags.toList, (listOf ids ",").mapM (·.toNat?) with
       | [e, p], some ids => some (ep, { pkgs := ids, err := e = '1', panics := p = '1' })
-      | [e, p, o], some ids => some (ep, { pkgs := ids, err := e = '1', panics := p = '1', other := o = '1' })
+      | [e, p, o], some ids => some (ep, { pkgs := ids, err := e = '1', panics := p = '1', finds := if o = '1' then [0] else [] })
       | _, _ => none
     | _, _ => none
   | _ => none
@@ -186,6 +196,10 @@ def showStatus : Status → String
 /-- id@extractor@<sorted locations, hex, joined by +> -/
 def showPkg (p : Pkg) : String := s!"{p.id}@{p.ext}@{"+".intercalate ((locsOf p.id p.loc).map hexOfStr)}"
 def showCall (c : Call) : String := s!"{c.ext}@{showPath c.path}@{c.size}"
+/-- the advisory reference the fake extractor gives its finding, and the emitted order (sortResults: by reference, bytewise) -/
+def fndRef (x : Fnd) : List Nat := bytes ("F-" ++ toString x.ext ++ "-" ++ pathStr x.loc)
+def showFnds (l : List Fnd) : String :=
+  joinWith ";" ((isort (fun a b => ltBytes (fndRef a) (fndRef b)) l).map fun x => s!"{x.ext}@{showPath x.loc}")
 
 def handle (line : String) : String :=
   match line.splitOn " " with
@@ -226,18 +240,32 @@ def handle (line : String) : String :=
         s!"pkgs={joinWith ";" (o.pkgs.map showPkg)} " ++
         s!"st={joinWith "," (o.statuses.map fun (e, st) => s!"{e}={showStatus st}")} " ++
         s!"hyp={boolStr hyp} spec={joinWith ";" ((spec.filter (·.opened)).map showCall)} " ++
-        -- the specification's inventory and statuses (theorems C01_inv_spec, C09_surfaced), sorted as sortResults does
+        -- the specification's inventory and statuses (theorems C01_inv_spec_benign, C09_surfaced_benign), sorted as sortResults does
         s!"specpkgs={joinWith ";" ((isort (pkgLt naming) (pkgsOfCalls c spec)).map showPkg)} " ++
         s!"fatalhyp={boolStr (c.maxInodes = 0 && c.errorOnFSErrors && !c.cancelBefore && c.cancelAt.isNone && ext.all (fun x => !x.2.panics))} " ++
         s!"specfatal={boolStr (traversalFaultScan c roots)} " ++
         s!"specst={joinWith "," ((isort (statusLt naming) (roots.flatMap fun (r, f) => (List.range c.nExt).map fun e => (e, statusSpec c f r e))).map fun (e, st) => s!"{e}={showStatus st}")} " ++
-        -- hypothesis LimitCfg and right-hand side of theorem C10_inodes_exact
+        -- hypothesis LimitCfg and right-hand side of theorem C10_inodes_exact_limitcfg
         s!"limithyp={boolStr (decide (c.maxInodes > 0) && !c.errorOnFSErrors && !c.cancelBefore && c.cancelAt.isNone && ext.all (fun x => !x.2.panics))} " ++
         s!"specvisits={visitsScan c roots} " ++
-        -- hypothesis CancelCfg and right-hand side of theorem C10_cancel_outcome
+        -- hypothesis CancelCfg and right-hand side of theorem C10_cancel_outcome_cancelcfg
         (let co := cancelOutcome (c.cancelAt.getD 0) 0 (traceScan c roots)
          s!"cancelhyp={boolStr (c.maxInodes = 0 && !c.errorOnFSErrors && !c.cancelBefore && decide (c.cancelAt.getD 0 ≥ 1) && ext.all (fun x => !x.2.panics))} " ++
-         s!"cspecerr={showErr co.2.1} cspecvis={co.2.2} cspeccalls={joinWith ";" ((co.1.filter (·.opened)).map showCall)}")
+         s!"cspecerr={showErr co.2.1} cspecvis={co.2.2} cspeccalls={joinWith ";" ((co.1.filter (·.opened)).map showCall)} ") ++
+        -- findings of the filesystem extractors: model, and specification (theorem run_finds_spec, class Benign)
+        s!"fnd={if r.err = .none then showFnds r.finds else "-"} specfnd={showFnds (findsOfCalls c spec)} " ++
+        -- containment (theorem C09_contained_run_any_benign, class Benign): the attempts written with the FAULT-FREE rule over the trees
+        -- with unreadable .gitignore contents removed, minus the files a fault lies on the way to
+        s!"contained={joinWith ";" (((roots.flatMap fun rf => containedRootAny c rf.2 rf.1).filter (·.opened)).map showCall)} " ++
+        -- the sequential machine on the specification's trace (theorem C10_machine_any: every configuration without a panicking extractor)
+        (let mo := machineOutcome (nonFatal c) roots
+         s!"nopanic={boolStr (ext.all (fun x => !x.2.panics))} mspecerr={showErr mo.2.1} mspecvis={mo.2.2} " ++
+         s!"mspeccalls={joinWith ";" ((mo.1.filter (·.opened)).map showCall)} ") ++
+        -- hypotheses of C01_once_partial (DistinctNames) and of C01_subdir_partial (for a scan requesting exactly one path of one root)
+        s!"distinct={boolStr (roots.all fun rf => distinctB rf.1)} " ++
+        s!"subdirhyp={boolStr (match roots, c.paths with
+            | [(root, f)], [d] => hyp && subdirHyp { c with paths := [] } f root d
+            | _, _ => false)}"
       | none => "bad-op"
     | _, _, _, _, _, _, _ => "bad-op"
   | _ => "bad-op"
